@@ -24,6 +24,10 @@ for s in $seeds; do
   [ "$s" = "C18-e" ] && ids=C17
   [ "$s" = "C05-f" ] && ids=C01
   [ "$s" = "C09-f" ] && ids=C05
+  [ "$s" = "C09-g" ] && ids=C01
+  [ "$s" = "C10-g" ] && ids=C06
+  [ "$s" = "C16-g" ] && ids=C10
+  [ "$s" = "C18-g" ] && ids=C17
   if grep -q '"retired"' /verif/seeded/$s/meta.json; then echo "$s: retired (see meta.json)"; continue; fi
   git -C $WT checkout -q -- . ; git -C $WT clean -fdq
   if ! git -C $WT apply /verif/seeded/$s/patch.diff 2>/dev/null; then echo "$s: PATCH DOES NOT APPLY"; miss=$((miss+1)); continue; fi
